@@ -403,7 +403,7 @@ def witness_still_fails(pid, k):
     if mon and rule:
         return any(x["rule"] == rule for x in mon(ops, impl))
     model = V.run_model(opath)
-    return first_divergence(ops, impl, model, PROPS[pid]["proj"]) is not None
+    return first_divergence(ops, impl, model, PROPS[k.get("proj_of", pid)]["proj"]) is not None
 
 
 def replay(pid, path):
